@@ -182,6 +182,92 @@ def _xml_sites():
     return sites, imports_seen
 
 
+# ---------------------------------------------------------------- TAR member loop (member-type guard, order of events)
+_TAR_KINDS = (("reg", ("REGTYPE", "AREGTYPE", "CONTTYPE")), ("hardlink", ("LNKTYPE",)), ("symlink", ("SYMTYPE",)),
+              ("dir", ("DIRTYPE",)), ("special", ("CHRTYPE", "BLKTYPE", "FIFOTYPE")))
+
+
+def _tar_loop_facts(fn, notes):
+    """facts about the `for member in tf.getmembers()` loop of _extract_from_tar_optimized, from the CURRENT source:
+    * per member kind (regular / hard link / symbolic link / directory / special) whether it gets past the loop's
+      member-type guards.  Every top-level `if <test>: continue` of the loop body whose test mentions nothing but the
+      loop variable (and the `tarfile` module) is a type guard; it is EVALUATED on a real tarfile.TarInfo of every type,
+      so `not member.isreg()`, `not member.isfile()`, `member.type != tarfile.REGTYPE`, `not (member.isreg() or
+      member.islnk())` are all read for what they do, not for how they are spelled.
+    * the order (source position) of the events type-guard / size-test / extractfile / read inside the loop body.
+    """
+    import tarfile
+    loops = [n for n in ast.walk(fn) if isinstance(n, ast.For) and isinstance(n.iter, ast.Call)
+             and isinstance(n.iter.func, ast.Attribute) and n.iter.func.attr == "getmembers"]
+    if len(loops) != 1 or not isinstance(loops[0].target, ast.Name):
+        raise ValueError(f"{fn.name}: expected exactly one `for <name> in <tar>.getmembers()` loop, found {len(loops)}")
+    loop = loops[0]
+    var = loop.target.id
+    # plain aliases of the loop variable made at the top of the body (`member = entry`)
+    aliases = {var}
+    for st in loop.body:
+        if isinstance(st, ast.Assign) and isinstance(st.value, ast.Name) and st.value.id in aliases:
+            aliases |= {t.id for t in st.targets if isinstance(t, ast.Name)}
+
+    def only_continue(body):
+        return len(body) >= 1 and isinstance(body[-1], ast.Continue) and \
+            all(isinstance(s, (ast.Continue, ast.Expr)) for s in body)
+
+    def names_of(e):
+        return {n.id for n in ast.walk(e) if isinstance(n, ast.Name)}
+    guards, events = [], []
+    for st in loop.body:
+        if isinstance(st, ast.If) and only_continue(st.body) and not st.orelse and names_of(st.test) <= aliases | {"tarfile"} \
+                and names_of(st.test) & aliases:
+            guards.append(st.test)
+            events.append(((st.lineno, st.col_offset), "type-guard"))
+    # a guard written the other way round: `if member.isreg(): <whole body>` (no else) — the body is the accepted case
+    wrapped = [st for st in loop.body if isinstance(st, ast.If) and not only_continue(st.body)
+               and names_of(st.test) <= aliases | {"tarfile"} and names_of(st.test) & aliases]
+    accepted = []
+    for kind, types in _TAR_KINDS:
+        verdicts = set()
+        for tname in types:
+            ti = tarfile.TarInfo("m.txt")
+            ti.type = getattr(tarfile, tname)
+            ok = True
+            for g in guards:
+                if eval(compile(ast.Expression(g), "<tar guard>", "eval"), {"tarfile": tarfile, **{a: ti for a in aliases}}):
+                    ok = False
+            for w in wrapped:
+                contains_extract = any(isinstance(n, ast.Attribute) and n.attr == "extractfile" for n in ast.walk(w))
+                if contains_extract and not eval(compile(ast.Expression(w.test), "<tar guard>", "eval"),
+                                                 {"tarfile": tarfile, **{a: ti for a in aliases}}):
+                    ok = False
+            verdicts.add(ok)
+        if len(verdicts) != 1:
+            notes.append(f"tar member-type guard: the types {types} of kind {kind} are not treated alike")
+        accepted.append((kind, True in verdicts))
+    # order of events (size test = the comparison against max_memory_size, looked through local aliases)
+    assigned = {}
+    for n in ast.walk(fn):
+        if isinstance(n, ast.Assign) and len(n.targets) == 1 and isinstance(n.targets[0], ast.Name):
+            assigned.setdefault(n.targets[0].id, []).append(n.value)
+
+    def resolve(e, depth=0):
+        while isinstance(e, ast.Name) and len(assigned.get(e.id, [])) == 1 and depth < 4:
+            e, depth = assigned[e.id][0], depth + 1
+        return e
+    for n in ast.walk(loop):
+        if isinstance(n, ast.If) and any(isinstance(c, ast.Compare) and any("max_memory_size" in ast.unparse(resolve(x))
+                                         for x in [c.left] + c.comparators) for c in ast.walk(n.test)):
+            if any(isinstance(s, (ast.Continue, ast.Break, ast.Return, ast.Raise)) for s in ast.walk(n)):
+                events.append(((n.lineno, n.col_offset), "size-test"))
+        if isinstance(n, ast.Call) and isinstance(n.func, ast.Attribute) and n.func.attr == "extractfile":
+            events.append(((n.lineno, n.col_offset), "extractfile"))
+        if isinstance(n, ast.Call) and isinstance(n.func, ast.Attribute) and n.func.attr in ("read", "readall", "readinto", "read1"):
+            events.append(((n.lineno, n.col_offset), "read"))
+    # reads outside the loop body proper (e.g. tf.extractall / tf.extract) would bypass everything
+    bypass = sorted({n.func.attr for n in ast.walk(fn) if isinstance(n, ast.Call) and isinstance(n.func, ast.Attribute)
+                     and n.func.attr in ("extractall", "extract")})
+    return accepted, [name for _, name in sorted(events)], bypass
+
+
 @generator("C12Consts")
 def gen_c12():
     notes = []
@@ -291,6 +377,18 @@ def gen_c12():
              "(`limit OP 0` for the enabling test) whatever the operand order / local names in the source -/")
     L.append("def limitSites : List (String × String × String × String) := " + lean_list(
         f"({lean_str(a)}, {lean_str(b)}, {lean_str(c)}, {lean_str(d)})" for a, b, c, d in sites) + "\n")
+
+    # ---- TAR member loop: which member kinds get past the type guard; order of the size test and the read
+    ftar = _find_func(arel, "_extract_from_tar_optimized")
+    tar_accept, tar_events, tar_bypass = _tar_loop_facts(ftar, notes)
+    L.append("/-- (member kind, does it get past the member-type guard(s) of the TAR member loop) — the guard expressions of the "
+             "current source evaluated on a real tarfile.TarInfo of every type -/")
+    L.append("def tarGuardAccepts : List (String × Bool) := " + lean_list(
+        f"({lean_str(k)}, {'true' if v else 'false'})" for k, v in tar_accept))
+    L.append("/-- type-guard / size-test / extractfile / read inside the TAR member loop, in source order -/")
+    L.append("def tarLoopEvents : List String := " + lean_list(lean_str(e) for e in tar_events))
+    L.append("/-- calls of TarFile.extract / extractall in _extract_from_tar_optimized (they would bypass the loop's tests) -/")
+    L.append("def tarBypassCalls : List String := " + lean_list(lean_str(e) for e in tar_bypass) + "\n")
 
     # does the 7z path hand the filtered member list to the extraction step?
     f7 = _find_func(arel, "_extract_from_7z_optimized")
